@@ -55,9 +55,32 @@ static void desc(var o) {
   } else desc_scalar(o);
 }
 
+/* a type that places its objects in a pool of its own (an Alloc instance): every object remembers its slot, and the deallocator
+   reads that slot from the object it is handed - which therefore has to be intact when it gets there */
+#define POOLN 8
+struct Cell { int64_t slot; int64_t payload; };
+static struct { struct Header h; struct Cell c; } cell_pool[POOLN]; static int cell_used[POOLN];
+static long cell_released, cell_garbled;
+extern var Cell;
+static var Cell_Alloc(void) {
+  for (int i = 0; i < POOLN; i++) if (!cell_used[i]) { cell_used[i] = 1; memset(&cell_pool[i], 0, sizeof cell_pool[i]);
+    var o = header_init(&cell_pool[i].h, Cell, AllocHeap); ((struct Cell*)o)->slot = i; return o; }
+  return NULL;
+}
+static void Cell_Dealloc(var self) {
+  struct Cell* c = self;
+  if (c->slot >= 0 && c->slot < POOLN && self == (var)&cell_pool[c->slot].c && cell_used[c->slot]) { cell_used[c->slot] = 0; cell_released++; }
+  else cell_garbled++;
+}
+var Cell = Cello(Cell, Instance(Alloc, Cell_Alloc, Cell_Dealloc));
+
 static var builtin_type(const char* n) {
-  var ts[] = { Int, Float, String, Array, List, Table, Tree, Tuple, Ref, Box, Type, File, Range, Slice, Zip, Map, Filter, Thread, Mutex, Function };
+  var ts[] = { Int, Float, String, Array, List, Table, Tree, Tuple, Ref, Box, Type, File, Range, Slice, Zip, Map, Filter, Thread, Mutex, Function,
+               TypeError, ValueError, KeyError, IOError, Iter, Get };             /* (names in prefix relation: Type / TypeError) */
   for (size_t i = 0; i < sizeof ts / sizeof ts[0]; i++) if (!strcmp(c_str(ts[i]), n)) return ts[i];
+  /* user types made at run time, their names nested in each other */
+  static const char* un[] = { "Point", "Point3D", "PointCloud", "Poin", "P" }; static var ut[5];
+  for (int i = 0; i < 5; i++) if (!strcmp(un[i], n)) { if (!ut[i]) ut[i] = new_root(Type, $S((char*)un[i]), $I(8)); return ut[i]; }
   return Int;
 }
 
@@ -108,6 +131,18 @@ int main(int argc, char** argv) {
         memset((char*)o + size(ty), 0x5A, 8);                   /* caller-owned storage: arbitrary bytes follow the value */
         if (ty == String) { ((struct String*)o)->val = strdup(c_str(src)); } else memcpy(o, src, size(ty));
         vals[t2] = o; }
+      continue;
+    }
+    if (hc_is(0, "pool")) {                   /* pool <n> : n pooled objects made and deleted (raw and managed in turn), twice over */
+      int n = (int)hc_int(1); if (n > POOLN) n = POOLN;
+      cell_released = cell_garbled = 0; long inuse = 0; volatile int made = 0;
+      for (int rep = 0; rep < 2; rep++) {
+        var cs[POOLN]; made = 0;
+        HC_TRY(for (int i = 0; i < n; i++) { cs[i] = (i % 2) ? (var)new_raw(Cell) : (var)new(Cell); made++; ((struct Cell*)cs[i])->payload = 100 + i; });
+        for (int i = 0; i < made; i++) HC_TRY(if (i % 2) del_raw(cs[i]); else del(cs[i]));
+      }
+      for (int i = 0; i < POOLN; i++) inuse += cell_used[i];
+      ev_begin("pool"); ev_int("n", n); ev_int("released", cell_released); ev_int("garbled", cell_garbled); ev_int("inuse", inuse); ev_str("exc", hc_exc); ev_int("line", cur_line); ev_end();
       continue;
     }
     if (hc_is(0, "hset")) { HC_TRY(set(vals[hc_int(1)], vals[hc_int(2)], vals[hc_int(3)])); continue; }
